@@ -128,8 +128,8 @@ Check api_accepted_is_safe :
     /\ (forall a, In a l -> core_code (a_code a) = true -> exists x, to_api v6p a = Ok x).
 Print Assumptions api_accepted_is_safe.
 
-(* (9) net_from_api (nlri_to_api n) = n for every well-formed IPv4 / IPv6 unicast or
-   labeled-unicast NLRI, under the stated assumptions on the Ipv6Addr textual form
+(* (9) net_from_api (nlri_to_api n) = n for every well-formed IPv4 / IPv6 unicast,
+   labeled-unicast or VPN NLRI, under the stated assumptions on the Ipv6Addr textual form
    (round trip, not an IPv4 string, no '/'). *)
 Theorem nlri_roundtrip_core :
   forall (v6p : N -> list N) (v6r : list N -> option N) (n : nlri),
@@ -142,16 +142,16 @@ Check nlri_roundtrip_core :
     net_from_api v6r (nlri_to_api v6p n) = Some n.
 Print Assumptions nlri_roundtrip_core.
 
-(* (10) An NLRI accepted by net_from_api (Prefix / LabeledPrefix arms) satisfies what
+(* (10) An NLRI accepted by net_from_api (Prefix / LabeledPrefix / LabeledVPNIPPrefix arms) satisfies what
    the NLRI decoders guarantee: length within the address width, at least one
    20-bit label, total bits within the one-octet length. *)
 Theorem net_from_api_preserves_wf :
   forall (v6r : list N -> option N) (x : api_nlri) (n : nlri),
-    v6_range v6r -> net_from_api v6r x = Some n -> wf_nlri n.
+    v6_range v6r -> api_nlri_in_range x -> net_from_api v6r x = Some n -> wf_nlri n.
 Proof. exact C17_net_from_api_preserves_wf. Qed.
 Check net_from_api_preserves_wf :
   forall (v6r : list N -> option N) (x : api_nlri) (n : nlri),
-    v6_range v6r -> net_from_api v6r x = Some n -> wf_nlri n.
+    v6_range v6r -> api_nlri_in_range x -> net_from_api v6r x = Some n -> wf_nlri n.
 Print Assumptions net_from_api_preserves_wf.
 
 (* (11) The NLRI encoders cannot panic on a well-formed NLRI, in a debug or a
@@ -169,7 +169,7 @@ Print Assumptions nlri_encode_safe.
 Theorem local_path_accepts_wf :
   forall (v6r : list N -> option N) (fam : option N) (n : api_nlri) (xs : list api_attr)
          (family : N) (net : nlri) (attrs : list attr) (nh : option (list N)),
-    v6_range v6r -> Forall api_in_range xs ->
+    v6_range v6r -> api_nlri_in_range n -> Forall api_in_range xs ->
     local_path v6r fam n xs = Some (family, net, attrs, nh) ->
     wf_nlri net /\ Forall wf_attr attrs
     /\ existsb (fun a => a_code a =? ORIGIN) attrs = true
@@ -178,7 +178,7 @@ Proof. exact C17_local_path_accepts_wf. Qed.
 Check local_path_accepts_wf :
   forall (v6r : list N -> option N) (fam : option N) (n : api_nlri) (xs : list api_attr)
          (family : N) (net : nlri) (attrs : list attr) (nh : option (list N)),
-    v6_range v6r -> Forall api_in_range xs ->
+    v6_range v6r -> api_nlri_in_range n -> Forall api_in_range xs ->
     local_path v6r fam n xs = Some (family, net, attrs, nh) ->
     wf_nlri net /\ Forall wf_attr attrs
     /\ existsb (fun a => a_code a =? ORIGIN) attrs = true
